@@ -77,12 +77,19 @@ def answer_key(kind, st, body):
 
 
 def asan_summary(text):
-    """the one line that names a sanitizer report / abort"""
-    for pat in (r"SUMMARY: [^\n]+", r"ERROR: \w+Sanitizer[^\n]+", r"[^\n]*runtime error:[^\n]+", r"terminate called[^\n]+(\n\s*what\(\):[^\n]+)?", r"Assertion [^\n]+ failed"):
-        m = re.search(pat, text or "")
+    """the one line that names a sanitizer report / abort (+ the first stack frame inside the repository, when there is a stack)"""
+    text = text or ""
+    frame = ""
+    m = re.search(r"#\d+ 0x[0-9a-f]+ in (\S[^\n]*?) (%s/[^\s:]+:\d+)" % re.escape(HC.REPO), text)
+    if m:
+        frame = " [first repository frame: %s %s]" % (re.sub(r"\(.*", "", m.group(1))[:80], m.group(2).replace(HC.REPO + "/", ""))
+    for pat in (r"ERROR: \w+Sanitizer: [^\n]+", r"[^\n]*runtime error:[^\n]+", r"terminate called[^\n]+(\n\s*what\(\):[^\n]+)?", r"SUMMARY: [^\n]+", r"Assertion [^\n]+ failed"):
+        m = re.search(pat, text)
         if m:
-            return " ".join(m.group(0).split())
-    return (text or "").strip().splitlines()[-1][:200] if (text or "").strip() else "no output"
+            line = " ".join(m.group(0).split())
+            line = re.sub(r" on address 0x[0-9a-f]+ at pc 0x[0-9a-f]+ bp 0x[0-9a-f]+ sp 0x[0-9a-f]+", "", line)
+            return line[:300] + frame
+    return text.strip().splitlines()[-1][:200] if text.strip() else "no output"
 
 
 def dataset_with_scenarios(rng, stream, lo=2, hi=3):
@@ -807,6 +814,11 @@ def run_c15(tier, seed, replay=None, theorems=None, module=None):
                                "while a server freshly started on that directory answers %s" % (h["did"], r, rd["what"], u, hd.get("_error"), H.route_query(h["pool"][rd["queries"][0]][1], h["pool"][rd["queries"][0]][0]),
                                                                                               brief(*rec["long"][0]) if rec["long"] else "-", brief(*rec["fresh"][0]) if rec["fresh"] else "-"), rt)
                         break
+                    if j and j.get("status") == "error" and "error while updating" in str(j.get("error", "")):
+                        # the server says the refresh FAILED: not a completed refresh, C15 makes no claim about what follows (C17 judges it)
+                        stats["refresh answered with an error object (not a completed refresh; history ends)"] += 1
+                        rep.notes.append("%s round %d (%s): GET %s answered %r: outside C15" % (h["did"], r, rd["what"], u, body[:160]))
+                        break
                     if not (j and j.get("status") == "success"):
                         dd.add("refresh-not-completed", "history %s round %d: GET %s answered %s %r" % (h["did"], r, u, st, body[:160]), rt)
                         break
@@ -894,7 +906,7 @@ C17_BREAK_CLASS = {
 }
 # quick / thorough volumes: (datasets with the full byte-level enumeration, datasets with a reduced one, datasets for the --break kinds)
 C17_VOLUME = {"quick": dict(full=1, reduced=1, breaks=4, trunc=48, flips=150, pairs=40, zero=5, update_share=6),
-              "thorough": dict(full=3, reduced=6, breaks=40, trunc=None, flips=None, pairs=None, zero=12, update_share=4)}
+              "thorough": dict(full=1, reduced=3, breaks=12, trunc=None, flips=None, pairs=None, zero=12, update_share=4)}      # ~50 k tests, ~25 min
 C17_RULE = ("fault enumeration on generated valid cache directories, each faulted directory given to the real ASan server binary (Euclidean geofilter) at START-UP and, for "
             "every cross-file inconsistency, every deletion and a share of the byte-level faults, through GET /updateCache?names=all&path=<faulted dir> on a healthy running server: "
             "deletion of each file and of pairs of files, truncation at 48 offsets per file (thorough: every offset of files <= 4 KiB), single-bit flips (150 per file kind; "
@@ -990,11 +1002,55 @@ def c17_faults(ds, vdir, vol, rng, byte_level, breaks):
         for kind in breaks:
             for tgt in ("", ":1", ":all"):
                 out.append(dict(cls=C17_BREAK_CLASS.get(kind, kind), spec=dict(op="break", kind=kind + tgt)))
+        # not cross-file inconsistencies but what single flipped bits were SEEN to produce; kept as deterministic faults so that the
+        # signature does not depend on the seed: (a) a trip that arrives before it left the previous stop (time runs backwards);
+        # (b) a per-stop file whose footpath distance / travel-time list is EMPTY although it lists footpaths
+        nt = len(ds["d"]["trips"])
+        for ti in sorted(set([0, 1 % nt, nt // 2, nt - 1])) + ["all"]:
+            out.append(dict(cls="trip-arrival-before-previous-departure", spec=dict(op="mutate", what="negative-hop", trip=ti)))
+        # (c) a footpath with a NEGATIVE travel time (the last footpath of up to two stops that have a footpath to another stop)
+        withfoot = sorted(set(a for a, b, t, x in ds["d"]["foot"] if a != b))
+        for stop in withfoot[:1] + withfoot[-1:] if len(withfoot) > 1 else withfoot:
+            out.append(dict(cls="footpath-negative-travel-time", spec=dict(op="recode", file="nodes/node_%s.capnpbin" % H.uuid(1, stop), set="transferableNodesTravelTimes", value=-300)))
+        for stop in sorted(set([0, ds["d"]["ns"] - 1])):
+            out.append(dict(cls="footpath-distance-array-empty", spec=dict(op="recode", file="nodes/node_%s.capnpbin" % H.uuid(1, stop), drop="transferableNodesDistances")))
+            out.append(dict(cls="footpath-time-array-empty", spec=dict(op="recode", file="nodes/node_%s.capnpbin" % H.uuid(1, stop), drop="transferableNodesTravelTimes")))
     return out
 
 
-def c17_make_faulted(vdir, spec, out, cachegen_exe):
+def c17_make_faulted(vdir, spec, out, cachegen_exe, d=None):
     if os.path.isdir(out): shutil.rmtree(out)
+    if spec["op"] == "mutate":
+        trips = list(d["trips"])
+        for i in (range(len(trips)) if spec["trip"] == "all" else [spec["trip"]]):
+            p, sv, tid, arr, dep, cb, cu = trips[i]
+            arr = list(arr); dep = list(dep)
+            arr[1] = dep[0] - 452                  # the effect of the flipped bit that was first observed (3060 -> 2548 after a departure at 3000)
+            if len(dep) > 1 and dep[1] < arr[1]: dep[1] = arr[1]
+            trips[i] = (p, sv, tid, arr, dep, cb, cu)
+        H.make_cache(dict(d, trips=trips), out, cachegen=cachegen_exe)
+        return
+    if spec["op"] == "recode":
+        # decode one file with the capnp tool and the repository's schema, drop one list, encode it again
+        import subprocess
+        shutil.copytree(vdir, out, ignore=lambda dpath, names: ["f"] if os.path.abspath(dpath) == os.path.abspath(vdir) else [])
+        schema = os.path.join(HC.REPO, "include/capnp/node.capnp")
+        p = os.path.join(out, spec["file"])
+        txt = subprocess.run(["capnp", "decode", "--packed", schema, "Node"], stdin=open(p, "rb"), capture_output=True, text=True, timeout=30).stdout
+        if "drop" in spec:
+            txt2 = re.sub(r"\b%s = \[[^\]]*\],?" % re.escape(spec["drop"]), "", txt)
+            txt2 = re.sub(r",\s*\)", " )", txt2)
+        else:
+            # the LAST element of the list gets the given value (the cache generator writes the self loop first when the dataset does)
+            def repl(m):
+                vals = [v.strip() for v in m.group(2).split(",") if v.strip()]
+                vals[-1] = str(spec["value"])
+                return m.group(1) + ", ".join(vals) + "]"
+            txt2 = re.sub(r"(\b%s = \[)([^\]]*)\]" % re.escape(spec["set"]), repl, txt)
+        r = subprocess.run(["capnp", "encode", "--packed", schema, "Node"], input=txt2.encode(), capture_output=True, timeout=30)
+        if r.returncode != 0 or txt2 == txt: raise RuntimeError("capnp recode failed: %s" % r.stderr[-200:])
+        with open(p, "wb") as f: f.write(r.stdout)
+        return
     if spec["op"] == "break":
         os.makedirs(out)
         r = __import__("subprocess").run([cachegen_exe, os.path.join(vdir, "dataset.txt"), out, "--break", spec["kind"]], capture_output=True, text=True, timeout=60)
@@ -1017,6 +1073,9 @@ def c17_spec_text(spec):
     if spec["op"] == "truncate": return "truncate %s at offset %d" % (spec["file"], spec["offset"])
     if spec["op"] == "flip": return "flip bit %d (byte %d, mask 0x%02x) of %s" % (spec["bit"], spec["bit"] // 8, 1 << (spec["bit"] % 8), spec["file"])
     if spec["op"] == "zero": return "zero %d bytes at offset %d of %s" % (spec["len"], spec["start"], spec["file"])
+    if spec["op"] == "mutate": return "dataset with trip %s arriving at its 2nd stop 452 s BEFORE it left the 1st (%s)" % ("#%s" % spec["trip"] if spec["trip"] != "all" else "EVERY", spec["what"])
+    if spec["op"] == "recode" and "set" in spec: return "re-encode %s with the last entry of %s set to %s (capnp decode | edit | capnp encode)" % (spec["file"], spec["set"], spec["value"])
+    if spec["op"] == "recode": return "re-encode %s without its %s list (capnp decode | edit | capnp encode)" % (spec["file"], spec["drop"])
     return "cachegen --break " + spec["kind"]
 
 
@@ -1048,20 +1107,70 @@ def loader_stage(log):
     return {"trips and connections": "schedules", "dataSources": "data_sources", "odTrips": "od_trips"}.get(ms[-1], ms[-1])
 
 
-def c17_probe(srv, urls, codes, timeout=15.0):
+def cpu_seconds(pid):
+    try:
+        f = open("/proc/%d/stat" % pid).read().rsplit(")", 1)[1].split()
+        return (int(f[11]) + int(f[12])) / float(os.sysconf("SC_CLK_TCK"))
+    except Exception:
+        return None
+
+
+RSS_LIMIT = 3 << 30          # a spinning server of the known kind allocates ~0.4 GB/s: it is killed at 3 GiB
+
+
+class RssWatch:
+    """kills (SIGKILL, by PID) a server whose resident set passes RSS_LIMIT while a request is outstanding"""
+    def __init__(self, srv):
+        self.srv, self.tripped, self._stop = srv, None, threading.Event()
+        self.t = threading.Thread(target=self._run, daemon=True)
+
+    def _run(self):
+        page = os.sysconf("SC_PAGE_SIZE")
+        while not self._stop.wait(0.2):
+            try:
+                rss = int(open("/proc/%d/statm" % self.srv.pid).read().split()[1]) * page
+            except Exception:
+                return
+            if rss > RSS_LIMIT:
+                self.tripped = rss
+                try: os.kill(self.srv.pid, 9)
+                except OSError: pass
+                return
+
+    def __enter__(self):
+        self.t.start(); return self
+
+    def __exit__(self, *a):
+        self._stop.set(); self.t.join(2)
+
+
+def c17_probe(srv, urls, codes, timeout=10.0):
     """4 requests against a server that is up.  -> (outcome text, None | (signature tail, description), answer keys)"""
     keys = []
     first = None
     for kind, url in urls:
-        st, hd, body, raw = srv.get(url, timeout=timeout)
+        with RssWatch(srv) as watch:
+            st, hd, body, raw = srv.get(url, timeout=timeout)
+        if watch.tripped:
+            return "request-hang", ("request-hang", "", "GET %s is not answered and the process grew to %.1f GiB resident memory within %.0f s (killed by the harness)" % (url, watch.tripped / float(1 << 30), hd.get("_elapsed", 0))), keys
         if st is None:
             t0 = time.time()
             while srv.alive() and time.time() - t0 < 3.0: time.sleep(0.05)
             if not srv.alive():
                 time.sleep(0.3)
                 how, det = crash_kind(srv.output(), srv.proc.poll())
-                return "died-serving:%s:%s" % (how, det), ("dies-serving-%s" % how, det, "GET %s killed the server: %s" % (url, asan_summary(srv.sanitizer_output() or srv.output()[-600:]))), keys
-            return "no-response", ("no-response", hd.get("_error"), "GET %s got no HTTP response (%s), process alive" % (url, hd.get("_error"))), keys
+                return "died-serving:%s:%s" % (how, det), ("dies-serving-%s" % how, det, "GET %s killed the server: %s" % (url, asan_summary(srv.output()))), keys
+            if hd.get("_error") == "timeout":
+                # spinning (a hang) or starved by the machine?  a spinning server is stopped at once (the known case allocates ~0.4 GB/s)
+                c0 = cpu_seconds(srv.pid); time.sleep(1.0); c1 = cpu_seconds(srv.pid)
+                if c0 is not None and c1 is not None and c1 - c0 < 0.4:
+                    st2, hd2, body2, raw2 = srv.get(url, timeout=45.0)
+                    if st2 is not None:
+                        st, hd, body = st2, hd2, body2
+                if st is None:
+                    return "request-hang", ("request-hang", "", "GET %s is not answered within %d s and the process keeps computing (%.1f s CPU in the following second)" % (url, timeout, (c1 or 0) - (c0 or 0))), keys
+            else:
+                return "no-response", ("no-response", hd.get("_error"), "GET %s got no HTTP response (%s), process alive" % (url, hd.get("_error"))), keys
         bad, j = well_formed(kind, st, hd, body, codes, allow_data_error=True)
         if not bad and st == 400 and j.get("errorCode") not in ("EMPTY_SCENARIO", "MISSING_PARAM_SCENARIO"):
             bad = "HTTP 400 %s for a valid request" % j.get("errorCode")
@@ -1074,7 +1183,7 @@ def c17_probe(srv, urls, codes, timeout=15.0):
             first = "%s" % (j.get("status") if st == 200 else "query_error") + ((":" + j["errorCode"]) if j.get("errorCode") else "")
     if not srv.alive():
         how, det = crash_kind(srv.output(), srv.proc.poll())
-        return "died-serving:%s:%s" % (how, det), ("dies-serving-%s" % how, det, "the server died after answering: %s" % asan_summary(srv.sanitizer_output() or srv.output()[-600:])), keys
+        return "died-serving:%s:%s" % (how, det), ("dies-serving-%s" % how, det, "the server died after answering: %s" % asan_summary(srv.output())), keys
     return "ok:" + first, None, keys
 
 
@@ -1090,11 +1199,11 @@ def c17_startup_test(fdir, urls, codes, server_exe, cache_all, tag, plain_exe=No
         if srv is None:
             return dict(outcome="harness", fail=None, noticed=False, keys=[])
         if getattr(srv, "ready_s", None) is None:
-            if srv.alive() or srv._rc is not None:
+            if srv.alive() or srv._rc in (-15, -9):
                 # not ready within the time-out (start_server has given up and stopped it): once more, with patience, before it is called a hang
                 srv.stop()
                 srv = H.start_server(fdir, euclid=True, exe=server_exe, cache_all=cache_all, ready_timeout=90.0, tag=tag + "b")
-                if srv is None or (getattr(srv, "ready_s", None) is None and (srv.alive() or srv._rc is not None)):
+                if srv is None or (getattr(srv, "ready_s", None) is None and (srv.alive() or srv._rc in (-15, -9))):
                     return dict(outcome="startup-hang", fail=("startup-hang", "", "the server neither answers nor exits within 90 s of start-up: " + (srv.output()[-300:] if srv else "")), noticed=True, keys=[])
             if getattr(srv, "ready_s", None) is None:
                 time.sleep(0.2)
@@ -1114,7 +1223,7 @@ def c17_startup_test(fdir, urls, codes, server_exe, cache_all, tag, plain_exe=No
                                                 note="UBSan report inside the Cap'n Proto headers (%s); the server built without sanitizers starts and answers (%s)" % (asan_summary(out), outcome))
                         finally:
                             if psrv is not None: psrv.stop()
-                return dict(outcome="startup-%s:%s" % (how, det), fail=("startup-" + how, det, "start-up ends with exit code %s while loading the %s: %s" % (srv.proc.poll(), loader_stage(out), asan_summary(srv.sanitizer_output() or out[-800:]))), noticed=True, keys=[])
+                return dict(outcome="startup-%s:%s" % (how, det), fail=("startup-" + how, det, "start-up ends with exit code %s while loading the %s: %s" % (srv.proc.poll(), loader_stage(out), asan_summary(out)), loader_stage(out)), noticed=True, keys=[])
         outcome, fail, keys = c17_probe(srv, urls, codes)
         noticed = "[error]" in srv.output()
         died = not srv.alive()
@@ -1163,15 +1272,18 @@ def c17_update_test(holder, sub, urls, codes):
             if not srv.alive():
                 time.sleep(0.3)
                 how, det = crash_kind(srv.output()[mark:], srv.proc.poll())
-                return dict(outcome="update-%s:%s" % (how, det), fail=("update-" + how, det, "GET %s kills the healthy running server (exit code %s): %s" % (u, srv.proc.poll(), asan_summary(srv.sanitizer_output() or srv.output()[-800:]))), noticed=True, keys=[])
+                return dict(outcome="update-%s:%s" % (how, det), fail=("update-" + how, det, "GET %s kills the healthy running server (exit code %s): %s" % (u, srv.proc.poll(), asan_summary(srv.output())), loader_stage(srv.output()[mark:])), noticed=True, keys=[])
             stage = loader_stage(srv.output()[mark:])
             tail = " ".join(srv.output()[mark:].split())[-160:]
             holder.stop()            # its data set is half-refreshed now: do not reuse it
             return dict(outcome="update-unanswered:" + stage, fail=("update-unanswered", "@" + stage, "GET %s gets no HTTP response (%s): an exception escapes the handler while the %s are loaded; the process stays up with a half-refreshed data set; log ends: %s" % (u, hd.get("_error"), stage, tail)), noticed=True, keys=[])
         j = parse_body(body) if st == 200 else None
-        if not (j and j.get("status") == "success"):
+        cl = hd.get("content-length")
+        if not (j and j.get("status") in ("success", "error")) or cl is None or not cl.isdigit() or int(cl) != len(body):
             return dict(outcome="update-bad-answer", fail=("update-bad-answer", "", "GET %s answered %s %r" % (u, st, body[:120])), noticed=True, keys=[])
         outcome, fail, keys = c17_probe(srv, urls, codes)
+        if j.get("status") == "error":
+            outcome = "refresh-reports-error, then " + outcome      # the refresh ran to completion and says so; what counts is what the server does next
         noticed = "[error]" in srv.output()[mark:]
         if fail is not None:
             fail = (fail[0] if fail[1] is None else "update-then-" + fail[0], fail[1], "after GET %s: %s" % (u, fail[2]))
@@ -1183,10 +1295,10 @@ def c17_update_test(holder, sub, urls, codes):
         # the server had gone through other faulted refreshes before: the alarm must reproduce on a fresh healthy server
         res2 = once(True)
         if res2["fail"] is None:
-            res["fail"] = ("update-sequence-" + res["fail"][0], res["fail"][1], res["fail"][2] + " -- only after %d earlier faulted refreshes, NOT reproduced on a fresh healthy server" % used_before)
+            res["fail"] = ("update-sequence-" + res["fail"][0], res["fail"][1], res["fail"][2] + " -- only after %d earlier faulted refreshes, NOT reproduced on a fresh healthy server" % used_before) + tuple(res["fail"][3:])
         else:
             res = res2
-            res["fail"] = (res["fail"][0], res["fail"][1], res["fail"][2] + " (reproduced on a fresh healthy server)")
+            res["fail"] = (res["fail"][0], res["fail"][1], res["fail"][2] + " (reproduced on a fresh healthy server)") + tuple(res["fail"][3:])
     return res
 
 
@@ -1196,16 +1308,18 @@ def c17_replay_text(ds, fault, mode):
 
 
 def c17_signature(fail, cls):
-    """<phase>-<how>:<fault class>:<exception / sanitizer kind>.  The three byte-level injections (truncated-, bitflip-, zeroed-) share
-    the fault class corrupt-<file kind> (which pair fires depends on the bytes hit, the defect class does not); an unanswered
-    /updateCache is ONE defect class per loader stage (the handler lets the loader's exception escape), whatever made the loader throw;
-    text that is not UTF-8 is one defect class whatever file it came from."""
-    head, det, desc = fail
+    """<phase>-<how>:<fault class>:<exception / sanitizer kind>.  The byte-level injections (truncated-, bitflip-, zeroed-<file kind>) share
+    the fault class corrupt-bytes@<loader stage that failed> (which file and which bytes make a loader throw varies with the seed, the
+    place where the exception escapes does not); an unanswered /updateCache is ONE defect class per loader stage (the handler lets the
+    loader's exception escape), whatever made the loader throw; text that is not UTF-8 is one defect class whatever file it came from.
+    The exact file / offset / bit is in the description and in the replay."""
+    head, det, desc = fail[:3]
     if det is None:
         return head
     if det.startswith("@"):
         return "%s:%s" % (head, det[1:])
-    cls = re.sub(r"^(truncated|bitflip|zeroed)-", "corrupt-", cls)
+    if re.match(r"(truncated|bitflip|zeroed)-", cls):
+        cls = "corrupt-bytes" + ("@" + fail[3] if len(fail) > 3 else "")
     return "%s:%s%s" % (head, cls, (":" + det) if det else "")
 
 
@@ -1282,7 +1396,7 @@ def run_c17(tier, seed, replay=None, theorems=None, module=None):
             frng = random.Random(seed * 1000003 + 400000)
             for n, f in enumerate(faults):
                 f["id"] = n
-                f["update"] = bool(replay) or f["spec"]["op"] in ("break", "delete") or frng.randrange(vol["update_share"]) == 0
+                f["update"] = bool(replay) or f["spec"]["op"] in ("break", "delete", "mutate", "recode") or frng.randrange(vol["update_share"]) == 0
             q = _queue.Queue()
             for f in faults: q.put(f)
             results = {}
@@ -1297,7 +1411,7 @@ def run_c17(tier, seed, replay=None, theorems=None, module=None):
                         fdir = os.path.join(vdir, sub)
                         r = dict(startup=None, update=None, error=None)
                         try:
-                            c17_make_faulted(vdir, f["spec"], fdir, cachegen)
+                            c17_make_faulted(vdir, f["spec"], fdir, cachegen, d=ds["d"])
                             r["startup"] = c17_startup_test(fdir, urls, codes, server, cache_all, "%s-%d" % (ds["did"], f["id"]), plain_exe=plain_exe)
                             if f["update"]:
                                 r["update"] = c17_update_test(holder, sub, urls, codes)
